@@ -4,7 +4,7 @@
    input / capture functions (so any iteration order of the Python sets); `extract` instantiates them
    with the value table and node universe of a concrete source. *)
 From Coq Require Import List Bool Arith Lia.
-From IRV Require Import Base.Exn C18.Model C18.Spec C18.Struct C18.Proofs C18.Proofs2 C18.Proofs3 C18.Proofs4 C18.Proofs5.
+From IRV Require Import Base.Exn C18.Model C18.Spec C18.Struct C18.Proofs C18.Proofs2 C18.Proofs3 C18.Proofs4 C18.Proofs5 C18.Proofs6.
 Import ListNotations.
 
 (* The walk never runs out of the fuel the model gives it (so `Raise OtherError` in find_bounded is
@@ -109,20 +109,12 @@ Proof.
 Qed.
 Print Assumptions C18_ok_bounded.
 
-(* C18_semantics.  Full statement: evaluating the extracted graph on the source's values at the boundary
-   inputs gives the source's values at the outputs.
-   Proved (for every tensor type T, every operator semantics `interp`, every initial environment e0 of the
-   source and e1 of the extracted graph): if the source is in SSA form (Hprod, NoDup) and topologically
-   sorted also with respect to captured values (Htopo), and e1 agrees with the source's final environment on
-   the needed values that are boundary inputs or have no producer, then running the extracted node list
-   gives the source's value on every output (indeed on every needed value, Proofs4.sem_extracted).
-   `_partial` because of the last hypothesis: for the producer-less needed values it should follow from
-   "extract returned a graph": they are initializers (bound to the same constants by the extracted graph's
-   own initializer list, C18_inits) or listed inputs (C18_ok_bounded for direct inputs,
-   C18_unbounded_captured_raises for values read inside nested bodies).  What is missing is only the
-   assembly of these three facts at the level of `extract` (relating node ids to nodes of the universe
-   and the heap's producer table to the node list), not a fact about the algorithm. *)
-Theorem C18_semantics_partial :
+(* C18_semantics_abstract: the region-level core of C18_semantics (below), over abstract producer/input/
+   capture functions: on an SSA, topologically sorted source, if the start environment e1 agrees with the
+   source's final environment on the needed values that are boundary inputs or have no producer, running
+   the extracted node list gives the source's value on every output (indeed on every needed value,
+   Proofs4.sem_extracted).  C18_semantics discharges the agreement hypothesis from "extract returned Ok". *)
+Theorem C18_semantics_abstract :
   forall (T : Type) (interp : nat -> list (option T) -> list T -> list T) (dflt : T) (nouts : nat -> list nat)
          prod isinit nins ncaps inputs outputs isf gnodes univ ns inis (e0 e1 : nat -> T),
     (forall n, ~ In n univ -> weight nins ncaps n = 0) ->
@@ -145,10 +137,45 @@ Proof.
            Hnd Hprod Htopo); [|exact He1 | apply R_out; exact Ho].
   intros n Hn. rewrite mem_In. apply H2.
 Qed.
-Print Assumptions C18_semantics_partial.
+Print Assumptions C18_semantics_abstract.
+
+(* C18_semantics (full statement, extract level).  For every tensor type T, every operator semantics
+   `interp` and every environment e0 of the source: if extract returns a graph, the source is in SSA form
+   and topologically sorted (also with respect to values captured by nested bodies), values defined inside
+   nested bodies do not belong to the parent graph while the requested outputs do, then running the extracted node list from ANY environment e1 that binds the extracted graph's
+   inputs to the source's values at those boundary values and its initializers to the source's initializer
+   tensors gives the source's value at every requested output.  No hypothesis relates e1 to the source on
+   anything else: that every other needed value is produced inside the region follows from extract = Ok
+   (C18_inits, C18_ok_bounded, Proofs5.extract_ok_captures_bound).
+   Nodes with subgraphs are covered through `interp n (values of n's inputs) (values of u_ncaps n)`: the
+   meaning of a node may depend on its bodies and on the outer environment through exactly the values its
+   bodies (any depth) read from the parent graph; C18_semantics_nested (below) instantiates `interp` with a
+   recursive evaluation of the bodies. *)
+Theorem C18_semantics :
+  forall (T : Type) (interp : nat -> list (option T) -> list T -> list T) (dflt : T)
+         h univ s inputs outputs e parent (e0 e1 : nat -> T),
+    extract h univ s inputs outputs = Ok e ->
+    (exists o, hd_error (e_outputs e) = Some o /\ h_owner h o = Some parent) ->
+    let gn := map n_id (s_nodes s) in
+    let run := exec T interp (u_nins univ) (u_ncaps h univ parent) (u_nouts univ) dflt in
+    NoDup gn ->
+    (forall m, In m (s_nodes s) -> lookup_node univ (n_id m) = Some m) ->
+    (forall v n, h_prod h v = Some n <-> In n gn /\ In v (u_nouts univ n)) ->
+    (forall l1 n l2, gn = l1 ++ n :: l2 ->
+       forall u p, reads (u_nins univ) (u_ncaps h univ parent) n u -> h_prod h u = Some p -> In p l1) ->
+    (forall m S v, In m (s_nodes s) -> In S (n_subs m) -> In v (defs_rec_g S) -> h_owner h v <> Some parent) ->
+    (forall o, In o (e_outputs e) -> h_owner h o = Some parent) ->
+    (forall v, In v (e_inputs e) -> e1 v = run e0 gn v) ->
+    (forall v, In v (e_inits e) -> e1 v = e0 v) ->
+    forall o, In o (e_outputs e) -> run e1 (e_nodes e) o = run e0 gn o.
+Proof.
+  intros T interp dflt h univ s inputs outputs e parent e0 e1 Hex Hpar gn run.
+  exact (extract_semantics T interp dflt h univ s inputs outputs e parent e0 e1 Hex Hpar).
+Qed.
+Print Assumptions C18_semantics.
 
 (* Non-vacuity: a sorted SSA source (x=1; a=f(x); b=g(a,x); c=h(b)), cut at a: nodes 2 and 3 are kept and
-   the hypotheses of C18_semantics_partial hold. *)
+   the hypotheses of C18_semantics_abstract hold. *)
 Example C18_semantics_example :
   let prod v := match v with 2 => Some 1 | 3 => Some 2 | 4 => Some 3 | _ => None end in
   let nins n := match n with 1 => [Some 1] | 2 => [Some 2; Some 1] | 3 => [Some 3] | _ => [] end in
